@@ -6,8 +6,8 @@ COQ_TARGETS = ['Props/C11.vo', 'Run/RunC11.vo']
 PROPS_MODULE = 'Props.C11'
 THEOREMS = ['extract_write', 'split_exact', 'extract_total', 'split_total', 'split_is_prefix',
             'strings_roundtrip_blank', 'strings_roundtrip_nul', 'string_eq_spec',
-            'carried_listed_fields', 'font_name_roundtrip', 'header_len_formula', 'chrono_accepts_written_dates']
-SWEEP_LEMMAS = ['SauceProofs.cp437_decode_encode_sweep (256 entries of the generated CP437_TO_UNICODE: no duplicate code point, so SauceString::from inverts Display byte for byte)']
+            'carried_listed_fields', 'font_name_roundtrip', 'from_inverts_display', 'header_len_formula', 'chrono_accepts_written_dates']
+SWEEP_LEMMAS = ['SauceCarried.cp437_decode_encode_sweep (256 entries of the generated CP437_TO_UNICODE: no duplicate code point; from_inverts_display rests on it)']
 TRUSTED = ['Coq 8.16.1 kernel + vm_compute (model evaluation in stage C, the 256-entry table sweep); no axioms (Print Assumptions: closed)',
            'translator/gen_sauce.py + vlib/rustsrc.py: constants, string widths, comment block arithmetic, CP437 table read from the source text',
            'harness/src/c11.rs (public API only) and the python statement of the property in props/c11.py (search stage)',
